@@ -256,8 +256,11 @@ def settle(rep, prop, cands, confirm, known, cap=8, describe=None):
             return (leaves, len(par))
         cs = sorted(cs, key=simplicity)
         for c in cs[:cap]:
+            C.LAST_NATIVE = None
             v, doc = confirm(c, known)
-            if isinstance(doc, dict) and not any(str(k).startswith('native') for k in doc):
+            if isinstance(doc, dict) and C.LAST_NATIVE is not None and len(C.LAST_NATIVE) <= 4:
+                doc['scenarios'] = C.LAST_NATIVE
+            if isinstance(doc, dict) and C.LAST_NATIVE is None and not doc.get('summary', {}).get('native') and not any(str(k).startswith('native') for k in doc):
                 # roles without a native replay route (internal functions with no public observation point): said in the
                 # replay document; everything else is replayed against the real build before it is reported
                 doc['native_replay'] = 'none available for this role: the verdict rests on the symbolic execution of the MIR'
